@@ -59,6 +59,8 @@ CONFIGS = {
     # glam's optional precondition assertions compiled in: an assertion that looks at a padding lane makes the
     # panic / no-panic outcome depend on it (C08 does not restrict itself to builds without glam-assert)
     "sse2-assert": dict(tc=None, features=["interop", "glam-assert"], profile="release", rustflags=""),
+    # the `libm` math backend instead of std (src/f32/math.rs, src/f64/math.rs have a separate arm for it)
+    "libm": dict(tc=None, features=["interop", "libm"], profile="release", rustflags=""),
 }
 
 
@@ -90,7 +92,7 @@ def target_dir(cfg):
     return os.path.join(TARGET_ROOT, repo_tag(), cfg)
 
 
-BACKEND_FEATURE = {"sse2-assert": None, "sse2-rel": None, "sse2-dbg": None, "native": None, "scalar": "scalar-math", "coresimd": "core-simd",
+BACKEND_FEATURE = {"libm": None, "sse2-assert": None, "sse2-rel": None, "sse2-dbg": None, "native": None, "scalar": "scalar-math", "coresimd": "core-simd",
                    "miri": None, "miri-scalar": "scalar-math", "miri-coresimd": "core-simd", "asan": None}
 _ops = {}
 _ops_lock = __import__("threading").Lock()
@@ -724,7 +726,7 @@ def check_c17(tier, seed):
 def check_c18(tier, seed):
     t0 = time.time()
     cfgs, skipped = available_configs(["sse2-rel", "sse2-dbg", "scalar", "coresimd", "native"])
-    build_all(cfgs)
+    build_all(cfgs + ["libm"])
     rounds = 2 if tier == "quick" else 24
     samples = 512 if tier == "quick" else 20000
     crash_viols = []
@@ -742,6 +744,8 @@ def check_c18(tier, seed):
         results_p.append((c, run_sim(c, ["c18p", "--seed", seed, "--samples", samples if c != "sse2-dbg" else max(8, samples // 2), "--workers", NCPU])))
         results_i.append((c, run_sim(c, ["c18i", "--seed", seed, "--samples", 300 if tier == "quick" else 20000, "--workers", NCPU])))
         results_c.append((c, run_sim(c, ["conv", "--seed", seed, "--rounds", 200 if tier == "quick" else 20000])))
+    # math-backend variant: only the hostile sweep depends on it
+    results_p.append(("libm", run_sim("libm", ["c18p", "--seed", seed, "--samples", samples, "--workers", NCPU])))
     viols, fired, effective, probes = list(crash_viols), {}, {}, {}
     evals = collect(results_m, viols, fired, effective, probes)
     evals += collect(results_p, viols, fired, effective, probes)
@@ -909,7 +913,7 @@ def main():
     a = ap.parse_args()
     try:
         if a.setup:
-            build_all(available_configs(["sse2-rel", "sse2-dbg", "scalar", "coresimd", "native", "sse2-assert"])[0])
+            build_all(available_configs(["sse2-rel", "sse2-dbg", "scalar", "coresimd", "native", "sse2-assert", "libm"])[0])
             return 0
         if a.replay:
             rep, res = replay_file(a.replay)
